@@ -27,7 +27,7 @@ def build_cases(ctx):
     for sub in rc.all_subsets(rc.variants('vul')):
         cases.append(rc.mk_case('vul', {'vul': [[p, [['a.sol', [1]]]] for p in sub]}, 'vul:subset-minimal'))
     cases += rc.standard_cases(rng, n_opt_random=20 if ctx.tier == 'quick' else 300, n_all=24 if ctx.tier == 'quick' else 300, reps=1)
-    return rc.corpus_cases('C11') + rc.corpus_cases('C12') + rc.corpus_cases('C13') + cases + rc.ood_cases(rng)
+    return rc.corpus_cases('C11') + rc.corpus_cases('C12') + rc.corpus_cases('C13') + cases + rc.big_cases(rng) + rc.ood_cases(rng)
 
 
 BIN_TREES = {
